@@ -659,9 +659,21 @@ class CSSStyleSheet(cssutils.stylesheets.StyleSheet):
             # variables?
 
         elif isinstance(rule, cssutils.css.CSSRuleList):
-            # insert all rules
-            for i, r in enumerate(rule):
-                self.insertRule(r, index + i)
+            # insert all rules or, if one of them is refused, none
+            oldrules = list(self._cssRules)
+            try:
+                for r in list(rule):
+                    before = len(self._cssRules)
+                    self.insertRule(r, index)
+                    index += len(self._cssRules) - before
+            except xml.dom.DOMException:
+                for r in self._cssRules:
+                    if not any(r is old for old in oldrules):
+                        r._parentStyleSheet = None
+                del self._cssRules[:]
+                for i, r in enumerate(oldrules):
+                    self._cssRules.insert(i, r)
+                raise
             return index
 
         if not rule.wellformed:
